@@ -48,8 +48,9 @@ pub struct Ctx {
     pub start: Instant,
     /// soft wall-clock budget for workloads (seconds)
     pub budget_s: f64,
-    violations: Mutex<Vec<Value>>,
-    pub violation_count: AtomicU64,
+    violations: std::sync::Arc<Mutex<Vec<Value>>>,
+    pub violation_count: std::sync::Arc<AtomicU64>,
+    finished: std::sync::Arc<AtomicBool>,
     known_seen: Mutex<BTreeMap<String, u64>>,
     inconclusive: Mutex<Vec<String>>,
     pub stop: AtomicBool,
@@ -71,14 +72,46 @@ impl Ctx {
                 }
             }
         }
+        let budget_s = tier.pick(budget_quick_s, budget_thorough_s) * scale;
+        let violations = std::sync::Arc::new(Mutex::new(vec![]));
+        let violation_count = std::sync::Arc::new(AtomicU64::new(0));
+        let finished = std::sync::Arc::new(AtomicBool::new(false));
+        {
+            // Run watchdog (3x the budget + 60 s). The code under test cannot be interrupted inside a
+            // worker thread, so a run whose threads are stuck in it (e.g. a compilation that blows up
+            // on a changed tree) is ended here. Violations that were already observed are reported:
+            // they are facts about executions that did finish. Without any, the run is inconclusive.
+            let (violations, violation_count, finished) = (violations.clone(), violation_count.clone(), finished.clone());
+            let (id, tier, seed) = (id.to_string(), tier, seed);
+            let limit = budget_s * 3.0 + 60.0;
+            std::thread::spawn(move || {
+                std::thread::sleep(Duration::from_secs_f64(limit));
+                if finished.load(Ordering::SeqCst) {
+                    return;
+                }
+                let nviol = violation_count.load(Ordering::SeqCst);
+                println!("INCONCLUSIVE property={id} run watchdog fired after {limit:.0} s: worker threads are still inside the code under test (coverage counters of this run are lost)");
+                if nviol > 0 {
+                    let paths = write_replays(&id, tier, seed, &violations.lock().unwrap());
+                    for (p, what) in &paths {
+                        println!("VIOLATION property={} replay={}   # {}", id, p.display(), what);
+                    }
+                    println!("RESULT property={} tier={} seed={} verdict=violated violations={} wall_s={:.1} (stopped by the run watchdog)", id, tier.name(), seed, nviol, limit);
+                    std::process::exit(1);
+                }
+                println!("RESULT property={} tier={} seed={} verdict=inconclusive wall_s={:.1}", id, tier.name(), seed, limit);
+                std::process::exit(2);
+            });
+        }
         Ctx {
             id: id.to_string(),
             tier,
             seed,
             start: Instant::now(),
-            budget_s: tier.pick(budget_quick_s, budget_thorough_s) * scale,
-            violations: Mutex::new(vec![]),
-            violation_count: AtomicU64::new(0),
+            budget_s,
+            violations,
+            violation_count,
+            finished,
             known_seen: Mutex::new(BTreeMap::new()),
             inconclusive: Mutex::new(vec![]),
             stop: AtomicBool::new(false),
@@ -152,23 +185,8 @@ impl Ctx {
         }
 
         // replay files
-        let mut replay_paths = vec![];
-        if nviol > 0 {
-            let dir = PathBuf::from(VERIF_DIR).join("replays").join(&self.id);
-            let _ = std::fs::create_dir_all(&dir);
-            for (i, v) in violations.iter().enumerate() {
-                let path = dir.join(format!("{}-{}-{}.json", self.tier.name(), self.seed, i));
-                let payload = json!({
-                    "property": self.id,
-                    "tier": self.tier.name(),
-                    "seed": self.seed,
-                    "what": v["what"],
-                    "case": v["replay"],
-                });
-                let _ = std::fs::write(&path, serde_json::to_string_pretty(&payload).unwrap());
-                replay_paths.push((path, v["what"].as_str().unwrap_or("").to_string()));
-            }
-        }
+        self.finished.store(true, Ordering::SeqCst);
+        let replay_paths = if nviol > 0 { write_replays(&self.id, self.tier, self.seed, &violations) } else { vec![] };
 
         coverage.insert(
             "known_findings_seen".into(),
@@ -236,6 +254,25 @@ impl Ctx {
         );
         0
     }
+}
+
+fn write_replays(id: &str, tier: Tier, seed: u64, violations: &[Value]) -> Vec<(PathBuf, String)> {
+    let mut replay_paths = vec![];
+    let dir = PathBuf::from(VERIF_DIR).join("replays").join(id);
+    let _ = std::fs::create_dir_all(&dir);
+    for (i, v) in violations.iter().enumerate() {
+        let path = dir.join(format!("{}-{}-{}.json", tier.name(), seed, i));
+        let payload = json!({
+            "property": id,
+            "tier": tier.name(),
+            "seed": seed,
+            "what": v["what"],
+            "case": v["replay"],
+        });
+        let _ = std::fs::write(&path, serde_json::to_string_pretty(&payload).unwrap());
+        replay_paths.push((path, v["what"].as_str().unwrap_or("").to_string()));
+    }
+    replay_paths
 }
 
 // ---------------------------------------------------------------------------------------------
